@@ -870,6 +870,23 @@ let c20_poolm t =
   (match !st.holder with Some _ -> failwith "script ends with an L task holding" | None -> ());
   "grants=" ^ join "," sz !st.grants ^ " waiting=" ^ string_of_int (int_of_nat (waiting !st))
 
+(* walm <n> <held mask> <wal 0|1> : readers inside a read transaction hold a read lock on their
+   read mark (WAL: reader i sits on mark i+1 = byte 124+i) or on SHARED (rollback journal); does
+   lock_all (its calls generated from the source) get through? *)
+let c19_walm t =
+  let n = ti t in let mask = ti t in let wal = ti t = 1 in
+  let tbl = List.concat (List.init n (fun i ->
+      if mask land (1 lsl i) <> 0 then
+        [((z_of_small (if wal then 124 + i else 1073741826), z_of_small (10 + i)), LRead)]
+      else [])) in
+  let calls = if wal then lock_all_probe @ lock_all_wal else lock_all_probe @ lock_all_rollback in
+  (* the probe runs on the database file, the WAL locks on the -shm file: different lock tables *)
+  let through =
+    if wal then (match run_locks [] (z_of_small 1) lock_all_probe, run_locks tbl (z_of_small 1) lock_all_wal with
+        | Some _, Some _ -> true | _ -> false)
+    else (match run_locks tbl (z_of_small 1) calls with Some _ -> true | None -> false) in
+  "blocked=" ^ (if through then "0" else "1")
+
 (* ---------- dispatch ---------- *)
 let handlers : (string * (toks -> string)) list ref = ref [
   "chunks", c08_chunks;
@@ -887,6 +904,7 @@ let handlers : (string * (toks -> string)) list ref = ref [
   "ivm", c11_ivm;
   "pool", c20_poolm;
   "backupm", c19_backupm;
+  "walm", c19_walm;
   "sublife", c13_sublife;
   "catchup", c12_catchup;
   "chk_stream", c12_chk;
